@@ -36,7 +36,9 @@ func (x *Exec) finish(st *State, res []Val) {
 		x.coverPC = append(x.coverPC, append([]string(nil), st.pc...))
 	}
 	for _, c := range x.spec.Ensures {
-		x.oblige(st, "ensures:"+c.Label, "ensures", c.Src, x.evalBool(env, c.E))
+		g := x.evalBool(env, c.E)
+		x.oblige(st, "ensures:"+c.Label, "ensures", c.Src, g)
+		st.assume(g) // cut: a clause proved on this path may be used for the clauses that follow it
 	}
 	if len(x.spec.ExitAssert) > 0 {
 		lenv := *env
@@ -168,6 +170,69 @@ func (r *FuncResult) Query(q PathQuery, wantModel bool) string {
 		}
 	}
 	return sb.String()
+}
+
+// SlicedQuery keeps only the hypotheses in the goal's cone of influence (symbol overlap, `rounds`
+// steps, ignoring symbols that occur in a large share of the hypotheses).  Proving the goal from
+// fewer hypotheses is still a proof; when the sliced query is not `unsat` the full one is tried.
+func (r *FuncResult) SlicedQuery(q PathQuery, rounds int) string {
+	type hyp struct {
+		text string
+		syms []string
+		in   bool
+	}
+	hs := make([]hyp, len(q.PC))
+	freq := map[string]int{}
+	for i, c := range q.PC {
+		hs[i] = hyp{text: c, syms: symbolsOf(c)}
+		for _, s := range hs[i].syms {
+			freq[s]++
+		}
+	}
+	common := func(s string) bool {
+		return s == "top" || strings.HasPrefix(s, "|alloc") || freq[s]*4 > len(q.PC)+8
+	}
+	S := map[string]bool{}
+	for _, s := range symbolsOf(q.Goal) {
+		S[s] = true
+	}
+	for i := range hs {
+		// short ground facts (branch conditions, definitions of fresh values) are always kept
+		if len(hs[i].text) < 160 && !strings.Contains(hs[i].text, "forall") {
+			hs[i].in = true
+		}
+	}
+	for round := 0; round < rounds; round++ {
+		var add []string
+		for i := range hs {
+			if hs[i].in && round > 0 {
+				continue
+			}
+			hit := false
+			for _, s := range hs[i].syms {
+				if S[s] && !common(s) {
+					hit = true
+					break
+				}
+			}
+			if hit || hs[i].in {
+				if !hs[i].in {
+					hs[i].in = true
+				}
+				add = append(add, hs[i].syms...)
+			}
+		}
+		for _, s := range add {
+			S[s] = true
+		}
+	}
+	var pc []string
+	for _, h := range hs {
+		if h.in {
+			pc = append(pc, h.text)
+		}
+	}
+	return r.Query(PathQuery{PC: pc, Goal: q.Goal, Trail: q.Trail}, false)
 }
 
 // CoverQuery: satisfiability of a path condition (vacuity check).
